@@ -309,8 +309,15 @@ class Switch(Generic[R], GenerativeFunction[R]):
         rets = multi_switch(new_idx, fs, f_args)
 
         subtraces = list(t[0] for t in rets)
+        # The branches need not agree on the change tags of their return values (a constraint may
+        # reach the return value of one branch only): choosing between them needs one common,
+        # conservative tagging.
+        retdiffs = list(rd for _, _, rd, _ in rets)
+        if not all(Diff.static_check_no_change(rd) for rd in retdiffs):
+            retdiffs = list(Diff.unknown_change(Diff.tree_primal(rd)) for rd in retdiffs)
         score, weight, retdiff = tree_choose(
-            new_idx, list((tr.get_score(), w, rd) for tr, w, rd, _ in rets)
+            new_idx,
+            list((tr.get_score(), w, rd) for (tr, w, _, _), rd in zip(rets, retdiffs)),
         )
         retval: R = Diff.tree_primal(retdiff)
 
